@@ -780,6 +780,11 @@ def main(run):
                                                          if d[0] == "const" and "_" in d[2]),
             "untyped const specs `const N = T(1)`": sum(1 for k in cases for f in k.pkg.files for d in f.decls if d[0] == "rawconst"),
             "package already holds shoot output (rest run first)": sum(1 for k in cases if k.pre),
+            "deterministic: -file mode on related file names (suffix / prefix pairs, both sort orders, case, ./) x 4 subcommands":
+                sum(1 for k in cases if k.tag == "pair"),
+            "deterministic: type group mixing ineligible and eligible specs / dotted base name / renamed import / "
+            "generate line in a declaration-free doc.go / local type of an earlier file shadowing a named type x 4 subcommands":
+                sum(1 for k in cases if k.tag == "group"),
             "map -to (not modelled, must be 0)": sum(1 for c_ in classes if c_ == 7),
         },
         "findings_measured": measured,
